@@ -146,14 +146,12 @@ def tensor_digest(t) -> str:
     """Bit-exact digest of a torch tensor (dtype, shape, bytes)."""
     import torch
 
-    tt = t.detach()
-    if not tt.is_contiguous():
-        tt = tt.contiguous()
+    tt = t.detach().cpu().contiguous()
     h = hashlib.sha256()
     h.update(str(tt.dtype).encode())
     h.update(str(tuple(tt.shape)).encode())
     if tt.numel():
-        h.update(tt.cpu().view(torch.uint8).numpy().tobytes() if tt.dim() else tt.reshape(1).view(torch.uint8).numpy().tobytes())
+        h.update(tt.reshape(-1).view(torch.uint8).numpy().tobytes())
     return h.hexdigest()[:24]
 
 
